@@ -6,6 +6,8 @@
                 handleNICK            own nick follows a NICK from ourselves (state.renameUser)
    commands.go  Pong  -> Client.write (straight to the tx queue)
                 Nick  -> Client.Send  (conn.rate first unless Config.AllowFlood)
+   builtin.go   handleISUPPORT        005: state.serverOptions (NICKLEN, MAXNICKLEN, ...), which
+                                      Commands.Nick could consult but does NOT
    client.go    GetNick               state.nick, or Config.Nick while state.nick == ""
    conn.go      rate / Send / write   which of the two routes consults the flood limiter
 
@@ -15,12 +17,14 @@
    state.nick ("" from state.reset at connect until 001; set by 001; changed by our own NICK).
 
    No proofs in this file. *)
-Require Import Bytes Names.
+Require Import Bytes AMap Names.
 
 Definition s_PING := Eval vm_compute in bs "PING".
 Definition s_PONG := Eval vm_compute in bs "PONG".
 Definition s_NICK := Eval vm_compute in bs "NICK".
 Definition s_001 := Eval vm_compute in bs "001".
+Definition s_005 := Eval vm_compute in bs "005".
+Definition s_this_server := Eval vm_compute in bs "this server".
 Definition s_433 := Eval vm_compute in bs "433".
 Definition s_436 := Eval vm_compute in bs "436".
 Definition s_437 := Eval vm_compute in bs "437".
@@ -33,9 +37,9 @@ Record pn_cfg := mkPnCfg {
   pc_collide : option (str -> str)       (* Config.HandleNickCollide *)
 }.
 
-(* state.nick *)
-Definition pn_state := str.
-Definition pn_init : pn_state := [].     (* state.reset *)
+(* state.nick and state.serverOptions *)
+Record pn_state := mkPnState { ps_nick : str; ps_opts : amap str }.
+Definition pn_init : pn_state := mkPnState [] [].     (* state.reset *)
 
 (* ---- outgoing events ---------------------------------------------------- *)
 
@@ -48,9 +52,14 @@ Record pn_out := mkOut { o_route : route; o_cmd : str; o_params : list str }.
 (* Event.Last *)
 Definition last_param (ps : list str) : str := last ps [].
 
-(* Commands.Pong / Commands.Nick *)
+(* Commands.Pong *)
 Definition cmd_pong (id : str) : pn_out := mkOut Direct s_PONG [id].
+(* "NICK name" through Client.Send: what a request for [name] has to look like *)
 Definition cmd_nick (name : str) : pn_out := mkOut Limited s_NICK [name].
+(* Commands.Nick: cmd.c.Send(&Event{Command: NICK, Params: []string{name}}).  The method
+   has the whole client at hand (here: its state, with the ISUPPORT tokens NICKLEN /
+   MAXNICKLEN); the current code consults none of it. *)
+Definition commands_nick (st : pn_state) (name : str) : pn_out := mkOut Limited s_NICK [name].
 
 (* ---- handlers ----------------------------------------------------------- *)
 
@@ -60,7 +69,7 @@ Definition handle_ping (params : list str) : list pn_out := [cmd_pong (last_para
 (* Client.GetNick; panicIfNotTracking *)
 Definition get_nick (cfg : pn_cfg) (st : pn_state) : res str :=
   if pc_tracking cfg then
-    Ok (match st with [] => pc_nick cfg | _ => st end)
+    Ok (match ps_nick st with [] => pc_nick cfg | n => n end)
   else Panic.
 
 (* Params[1] can be the refused nickname: not empty, no SPACE or ',' (the text of a numeric
@@ -81,24 +90,24 @@ Definition underscore : N := 95.
 (* state.nick, or Config.Nick while it is empty: read directly by the handler (GetNick would
    panic when tracking is disabled) *)
 Definition own_nick (cfg : pn_cfg) (st : pn_state) : str :=
-  match st with [] => pc_nick cfg | _ => st end.
+  match ps_nick st with [] => pc_nick cfg | n => n end.
 
 (* nickCollisionHandler *)
 Definition nick_collision (cfg : pn_cfg) (st : pn_state) (params : list str) : res (list pn_out) :=
   let cur := own_nick cfg st in
   match pc_collide cfg with
-  | None => Ok [cmd_nick (collision_base cur params ++ [underscore])]
+  | None => Ok [commands_nick st (collision_base cur params ++ [underscore])]
   | Some f =>
       match f cur with
       | [] => Ok []
-      | n => Ok [cmd_nick n]
+      | n => Ok [commands_nick st n]
       end
   end.
 
 (* handleConnect, first part (registered whether or not tracking is on) *)
 Definition handle_welcome (st : pn_state) (params : list str) : pn_state :=
   match params with
-  | p0 :: _ => p0
+  | p0 :: _ => mkPnState p0 (ps_opts st)
   | [] => st
   end.
 
@@ -109,9 +118,29 @@ Definition handle_nick (st : pn_state) (src : option str) (params : list str) : 
   | Some name =>
       match params with
       | [] => st
-      | _ => if streqb (to_rfc1459 name) (to_rfc1459 st) then last_param params else st
+      | _ => if streqb (to_rfc1459 name) (to_rfc1459 (ps_nick st))
+             then mkPnState (last_param params) (ps_opts st) else st
       end
   end.
+
+(* handleISUPPORT, the part that fills state.serverOptions: the parameters between the first
+   (our nickname) and the last (the text, which must end in "this server") are NAME or
+   NAME=value *)
+Fixpoint isupport_set (opts : amap str) (toks : list str) : amap str :=
+  match toks with
+  | [] => opts
+  | [_] => opts
+  | t :: r =>
+      isupport_set (match index_byte 61 t with
+                    | Some (S j) => aset (firstn (S j) t) (skipn (S (S j)) t) opts
+                    | _ => aset t [] opts
+                    end) r
+  end.
+
+Definition handle_isupport (st : pn_state) (params : list str) : pn_state :=
+  if negb (suffixb s_this_server (last_param params)) then st
+  else if Nat.ltb (length params) 2 then st
+  else mkPnState (ps_nick st) (isupport_set (ps_opts st) (tl params)).
 
 (* ---- dispatch ----------------------------------------------------------- *)
 
@@ -130,6 +159,8 @@ Definition pn_step (cfg : pn_cfg) (st : pn_state) (e : pn_event) : res (pn_state
   else if streqb (e_cmd e) s_001 then Ok (handle_welcome st (e_params e), [])
   else if streqb (e_cmd e) s_NICK && pc_tracking cfg then
     Ok (handle_nick st (e_src e) (e_params e), [])
+  else if streqb (e_cmd e) s_005 && pc_tracking cfg then
+    Ok (handle_isupport st (e_params e), [])
   else Ok (st, []).
 
 (* ---- the flood limiter as seen by one outgoing event ------------------- *)
